@@ -981,6 +981,11 @@ func (r *runner) exec(c Call) (ret map[string]interface{}, err error) {
 		cfg.NoWriteOp = c.Bool
 		var in2 *inst
 		meta, ks := r.in.meta, r.ks
+		if strings.HasSuffix(c.Data, "+ow") {
+			// the read-only instance's drive manager is constructed with overwrite = true (only a writer may ever clear the drive)
+			cfg.Overwrite = true
+			c.Data = strings.TrimSuffix(c.Data, "+ow")
+		}
 		if c.Data == "fresh" || c.Data == "fresh-otherkey" {
 			// with an EMPTY index (Initialize has to read the tape); with another identity nothing on the tape can be indexed
 			r.nextDB++
